@@ -550,7 +550,7 @@ pub fn work_miri(ctx: &Ctx, rep: &mut Report) {
     let n = 20 * ctx.nshards;
     for u in ctx.units(n) {
         let mut r = Rng::derive(ctx.seed, &[0xC01, 9, u as u64]);
-        let prof = Profile::general().with(T_SOUP, 3).with(T_MALFORMED, 3).boost(&[T_ALT], 3).resizes(20).huge(3).size(9, 5).length((1, 5), (1, 4));
+        let prof = Profile::general().with(T_SOUP, 3).with(T_MALFORMED, 3).boost(&[T_ALT], 3).resizes(20).huge(3).size(9, 5).length((1, 5), (1, 4)).big(0);
         let h = gen::history(&mut r, &prof);
         rep.evaluations += 1;
         match guarded(|| {
